@@ -708,6 +708,8 @@ def run(ctx):
         for i in range(nfit):
             eval_fit_case(ctx, drv, gen_fit_case(ctx.rng.fork(200000 + i)))
         ctx.extra["case_counts"] = {"formula": nf, "alias": na, "fit": nfit, "points_per_formula_case": 6}
+        from . import c12_ext as cx
+        cx.run(ctx, drv)          # histories / rejected calls / entry points (growth round 5)
     finally:
         drv.close()
 
@@ -720,8 +722,11 @@ def replay(ctx, rep):
         return False
     drv = Driver("C12")
     try:
+        from . import c12_ext as cx
         if case.get("stream") in EVAL:
             EVAL[case["stream"]](ctx, drv, case)
+        elif case.get("stream") in cx.EVAL:
+            cx.EVAL[case["stream"]](ctx, drv, case)
         else:
             check_tables(ctx, drv)
     finally:
